@@ -42,7 +42,7 @@ def engine_p(prop):
         return [], []
     jobs = []
     for q in quals:
-        if C.get(q).fuel >= 5:
+        if C.get(q).fuel >= 5 or C.get(q).shards:
             jobs += [(q, (k, SHARDS)) for k in range(SHARDS)]
         else:
             jobs.append((q, None))
